@@ -90,13 +90,30 @@ def chunks(tier):
 _E = {}
 
 
+_VIA = [None]  # "patched_numpy": the array helpers are taken from chempy.units.patched_numpy (the numpy stand-in) instead
+_PATCHED = ("allclose", "concatenate", "linspace", "tile", "polyfit", "polyval")
+
+
+class _ViaPatched(object):
+    """chempy.units with the six array helpers looked up on its `patched_numpy` namespace"""
+
+    def __init__(self, cu):
+        self._cu = cu
+
+    def __getattr__(self, name):
+        if name in _PATCHED:
+            return getattr(self._cu.patched_numpy, name)
+        return getattr(self._cu, name)
+
+
 def E():
     if not _E:
         import numpy as np
         import quantities as pq
         import chempy.units as cu
 
-        _E.update(cu=cu, u=cu.default_units, pq=pq, np=np)
+        _E.update(cu_module=cu, u=cu.default_units, pq=pq, np=np)
+    _E["cu"] = _ViaPatched(_E["cu_module"]) if _VIA[0] else _E["cu_module"]
     return _E
 
 
@@ -274,6 +291,32 @@ def op_dim(res, qs, mag):
                       % (case["q"], got, ref), case, {k: int(v) for k, v in got.items()} if isinstance(got, dict) else got, ref)
     else:
         res.outcomes["dim-ok|%d-dims" % len(ref)] += 1
+    if ok and all(hasattr(cu, k) for k in ref):
+        # the library's own dimension algebra (units.length, units.time, ... and their ==): the reported dimensionality
+        # equals the sum n_i * dimension_i and differs from every one-off neighbour of it, asked from either side
+        def dimsum(d):
+            acc = 0 * cu.length
+            for k, n in d.items():
+                acc = acc + n * getattr(cu, k)
+            return acc
+
+        gotd = cu.get_physical_dimensionality(q)
+        verdicts = _obs(lambda: (bool(gotd == dimsum(ref)), bool(dimsum(ref) == gotd)))
+        bad = None if verdicts == (True, True) else ("own dimensionality", verdicts)
+        for k in A.DIMS[:6]:
+            for step in (1, -1):
+                nb = dict(ref)
+                nb[k] = nb.get(k, 0) + step
+                v = _obs(lambda: (bool(gotd == dimsum(nb)), bool(dimsum(nb) == gotd)))
+                res.evaluations += 1
+                if v != (False, False) and bad is None:
+                    bad = ("neighbour %s%+d" % (k, step), v)
+        if bad:
+            res.outcomes["dim-algebra-WRONG"] += 1
+            res.violation("C09|get_physical_dimensionality|scalar|inconsistent-with-dimension-algebra", "get_physical_dimensionality(%s) compared (==, reversed ==) with the %s built from units.length, units.time, ...: %r"
+                          % (case["q"], bad[0], bad[1]), case, list(bad[1]) if isinstance(bad[1], tuple) else bad[1], "equal to its own exponents only")
+        else:
+            res.outcomes["dim-algebra-ok"] += 1
     got = _obs(lambda: cu.is_unitless(q))
     res.evaluations += 1
     if _isexc(got) or bool(got):
@@ -968,6 +1011,9 @@ def _fam(name):
 
 
 def _helper_result(res, helper, ok, case, what, got, ref):
+    if _VIA[0]:
+        helper, what = "%s.%s" % (_VIA[0], helper), "[helpers taken from chempy.units.%s] %s" % (_VIA[0], what)
+        case["via"] = _VIA[0]
     res.evaluations += 1
     res.symbols["helper:" + helper] += 1
     if ok:
@@ -1110,7 +1156,7 @@ def op_uniform(res, fam, kind, idxs):
     _helper_result(res, "uniform", ok, case, "uniform(%s in %r) = %r; SI values %r" % (kind, [units[i][0] for i in idxs], shown, ref), shown, ref)
 
 
-_REL = {"same": Fr(0), "near": Fr(1, 10 ** 10), "far": Fr(1, 10 ** 6)}
+_REL = {"same": Fr(0), "zeros": Fr(0), "near": Fr(1, 10 ** 10), "far": Fr(1, 10 ** 6)}
 
 
 def op_allclose(res, fam, shape, ia, ib, rel, atol, rtol=None):
@@ -1122,12 +1168,29 @@ def op_allclose(res, fam, shape, ia, ib, rel, atol, rtol=None):
     (da, ua, ma), (db, ub, mb) = units[ia], units[ib]
     dc, uc, mc = units[(ib + 1) % len(units)]
     vals = [Fr(9, 4), Fr(3, 2), Fr(4)]
+    if rel == "zeros":  # exact zeros at the same positions: |0 - 0| <= rtol*0 holds (numpy.allclose is inclusive)
+        vals = [Fr(0), Fr(3, 2), Fr(0)]
+    if rel == "at-atol":
+        # rtol = 0 and a difference of exactly the absolute tolerance (dyadic numbers, one common unit): inclusive, True
+        a = (1.0 * ua) if shape == "scalar" else (np.array([1.0, 2.0, 0.0]) * ua if shape == "qarray" else [1.0 * ua, 2.0 * ua, 0.0 * ua])
+        b = (1.5 * ua) if shape == "scalar" else (np.array([1.5, 1.5, 0.5]) * ua if shape == "qarray" else [1.5 * ua, 1.5 * ua, 0.5 * ua])
+        case = dict(op="allclose", args=[fam, shape, ia, ib, rel, atol])
+        res.states += 1
+        res.transitions += 1
+        res.nontrivial += 1
+        got = _obs(lambda: cu.allclose(a, b, rtol=0, atol=0.5 * ua))
+        ok = (not _isexc(got)) and bool(got)
+        _helper_result(res, "allclose", ok, case, "allclose(%s, differing by exactly 0.5 %s, rtol=0, atol=0.5 %s) = %r, numpy.allclose on the magnitudes is True" % (shape, da, da, got),
+                       got if _isexc(got) else bool(got), True)
+        if ok:
+            res.outcomes["allclose-at-atol-True"] += 1
+        return
     if rel == "confused":
         bvals = [float(v) for v in vals]
         expect = ma.f == mb.f
     else:
         bvals = [float(v * ma.f / mb.f * (1 + _REL[rel])) for v in vals]
-        expect = rel in ("same", "near") or atol
+        expect = rel in ("same", "near", "zeros") or atol
         if rtol is not None:  # a caller-chosen relative tolerance: 'far' differs by 1e-6, 'near' by 1e-10
             expect = _REL[rel] <= rtol or atol
     avals = [float(v) for v in vals]
@@ -1257,6 +1320,16 @@ CMP_CASES = ["km-vs-m", "km-vs-number", "same-unit-equal", "same-unit-unequal", 
 
 
 def _layer_H(res, helper):
+    _layer_H1(res, helper)
+    if helper in ("linspace", "concatenate", "tile", "allclose", "polyfit", "polyval"):
+        _VIA[0] = "patched_numpy"
+        try:
+            _layer_H1(res, helper)
+        finally:
+            _VIA[0] = None
+
+
+def _layer_H1(res, helper):
     fams = _families()
     if helper in ("linspace", "logspace"):
         for num in (1, 2, 3, 5):
@@ -1296,8 +1369,10 @@ def _layer_H(res, helper):
             for shape in ("scalar", "qarray", "list"):
                 for ia in n:
                     for ib in n:
-                        for rel in ("same", "near", "far", "confused"):
+                        for rel in ("same", "near", "far", "confused", "zeros"):
                             op_allclose(res, name, shape, ia, ib, rel, False)
+                        if ia == ib:
+                            op_allclose(res, name, shape, ia, ib, "at-atol", False)
                         op_allclose(res, name, shape, ia, ib, "far", True)
                         op_allclose(res, name, shape, ia, ib, "far", False, 1e-4)
                         op_allclose(res, name, shape, ia, ib, "near", False, 1e-12)
@@ -1364,7 +1439,11 @@ OPS = dict(conv=op_conv, triple=op_triple, dim=op_dim, incompat=op_incompat, zer
 
 def replay(case):
     res = Result()
-    OPS[case["op"]](res, *case["args"])
+    _VIA[0] = case.get("via")
+    try:
+        OPS[case["op"]](res, *case["args"])
+    finally:
+        _VIA[0] = None
     if res.violations:
         v = res.violations[0]
         return dict(key=v["key"], what=v["what"], observed=v["observed"], expected=v["expected"])
